@@ -83,6 +83,9 @@ class RSABinding(CryptographyBinding):
 
     @staticmethod
     def import_public_key(obj: RSADictKey) -> RSAPublicKey:
+        # CRT parameters without "d" are a partial private key, not a public one
+        if any(prop in obj for prop in ("p", "q", "dp", "dq", "qi", "oth")):
+            raise ValueError('RSA key with private parameters must include "d"')
         numbers = RSAPublicNumbers(base64_to_int(obj["e"]), base64_to_int(obj["n"]))
         return numbers.public_key(default_backend())
 
